@@ -403,7 +403,7 @@ def check(ctx):
     exe = build_harness(ctx)
     if exe:
         try:
-            run(ctx, exe, 900 if ctx.thorough else 110)
+            run(ctx, exe, 700 if ctx.thorough else 250)
         except fv.InfraError:
             if not ctx.proof_failures:
                 raise
